@@ -15,11 +15,13 @@ ToPoly(xs) == [i \in 1..Len(xs) |-> I(xs[i])]
 Br == [i \in 1..(Q.ncells + 1) |-> i - 1]
 Tab == Table(Br, Q.p, "clamped")
 QCoef == [i \in 1..Len(Q.coef) |-> I(Q.coef[i])]
+\* m^2 either given, or taken from the mode table for global mode index Q.mI of Q.nth theta points (msq = -1)
+Msq == IF Q.msq >= 0 THEN Q.msq ELSE ModeSquared(Q.mI, Q.nth)
 IBC == kind = "forcing" => SatisfiesBC(QCoef, Q.ncells + Q.p, Q.lN, Q.uN)
 Dump == PrintT("ROW " \o ToJson(
     IF kind = "modes" THEN [kind |-> kind, n |-> q, m |-> [k \in 1..q |-> ModeNumber(k - 1, q)], msq |-> [k \in 1..q |-> ModeSquared(k - 1, q)]]
-    ELSE LET tab == Tab IN [kind |-> kind, id |-> Q.id,
+    ELSE LET tab == Tab IN [kind |-> kind, id |-> Q.id, msq |-> Msq,
           range |-> UnknownRange(Q.ncells + Q.p, Q.lN, Q.uN),
-          g |-> [c \in 1..Q.ncells |-> Forcing(tab, QCoef, Br, c, Q.ncells + Q.p, Q.r0, I(Q.A), ToPoly(Q.B), ToPoly(Q.C), ToPoly(Q.D), Q.msq)],
+          g |-> [c \in 1..Q.ncells |-> Forcing(tab, QCoef, Br, c, Q.ncells + Q.p, Q.r0, I(Q.A), ToPoly(Q.B), ToPoly(Q.C), ToPoly(Q.D), Msq)],
           phi |-> [c \in 1..Q.ncells |-> PhiCell(tab, QCoef, c, Q.ncells + Q.p)]]))
 =============================================================================
